@@ -167,6 +167,12 @@ def run(ctx, R, tier):
     ok = all(hcfg.guarded(n, lambda e: edge_has_fact(e, call_fact(ctx, hcf, HANDSHAKE))) for n in truthy)
     R.check(ok, "C08-R3", "_handleConnection|conn-only-after-handshake", "a connection is returned only on the true edge of daemon._handshake(conn)",
             hcf.loc(truthy[0].ast), "_handleConnection can return a connection whose handshake failed")
+    # a connection whose handshake was refused or failed is closed before _handleConnection returns (what the peer sends next is never read)
+    hs_nodes = [n for c in ctx.calls_to(hcf, HANDSHAKE) for n in ctx.node_of(hcf, c)]
+    closers = [n for n in hcfg.nodes for c in calls_in(n) if isinstance(c.func, ast.Attribute) and c.func.attr == "close"]
+    ok = bool(hs_nodes) and bool(closers) and hcfg.all_paths_pass(hs_nodes, lambda n: n in closers or n in truthy, targets=[hcfg.exit])
+    R.check(ok, "C08-R3", "_handleConnection|closed-unless-accepted", "after the handshake every path either returns the accepted connection or closes the socket", hcf.loc(),
+            "a refused or failed handshake can leave the socket open: the multiplex server no longer reads it, but the peer is never disconnected")
     for c in ctx.calls_to(ev, "Pyro5.svr_multiplex.SocketServer_Multiplex.handleRequest"):
         a0 = c.args[0] if c.args else None
         ok = isinstance(a0, ast.Name) and any(d.kind == "for" for n in ctx.node_of(ev, c) for d in rd.reaching(n, a0.id)) and \
@@ -288,6 +294,39 @@ def run(ctx, R, tier):
                 f.loc(bad_def) if bad_def is not None else f.loc(H),
                 "`%s` adopts the peer's serializer id before it has been looked up: with an unknown id the failure handler's own lookup raises KeyError and the "
                 "peer gets no connect-failure at all" % (unparse(bad_def) if bad_def is not None else ""))
+    # the answer's header names the serializer that encoded its payload; and the answer is really sent
+    sm = ctx.calls_to(f, "Pyro5.protocol.SendingMessage.__init__")
+    cfg_f = ctx.cfg(f)
+    if len(sm) == 1 and len(sm[0].args) >= 5 and isinstance(sm[0].args[3], ast.Name) and isinstance(sm[0].args[4], ast.Name):
+        hid, pay = sm[0].args[3].id, sm[0].args[4].id
+        bad = None
+        for st, t, k in stores_in(f.node):
+            if k == "assign" and isinstance(t, ast.Name) and t.id == pay and isinstance(st.value, ast.Call) and isinstance(st.value.func, ast.Attribute) \
+                    and st.value.func.attr == "dumps" and isinstance(st.value.func.value, ast.Name):
+                serv = st.value.func.value.id
+                for n in cfg_f.nodes_for(st):
+                    for d in ctx.rd(f).reaching(n, serv):
+                        key = d.value.slice if d.value is not None and isinstance(d.value, ast.Subscript) else None
+                        if key is None:
+                            bad = st
+                            continue
+                        if isinstance(key, ast.Name) and key.id == hid:
+                            continue
+                        # serializer looked up under another expression: the header variable must hold that same expression here
+                        hdefs = ctx.rd(f).reaching(n, hid)
+                        if not (hdefs and all(dd.value is not None and unparse(dd.value) == unparse(key) for dd in hdefs)):
+                            bad = st
+        R.check(bad is None, "C08-R4", "_handshake|header-names-the-encoding-serializer", "whenever the answer payload is encoded, the header's serializer id is that serializer's id",
+                f.loc(bad) if bad is not None else f.loc(sm[0]),
+                "`%s` encodes the answer with a serializer whose id is not what the header will carry: the peer decodes the connect answer with the wrong serializer" % (
+                    unparse(bad, 60) if bad is not None else ""))
+        sends = [n for c in ctx.calls_to(f, "Pyro5.socketutil.SocketConnection.send") for n in ctx.node_of(f, c)]
+        smn = ctx.node_of(f, sm[0])
+        ok = bool(sends) and cfg_f.all_paths_pass(smn, lambda n: n in sends, edge_ok=lambda e: e.kind != "exc", targets=[cfg_f.exit])
+        R.check(ok, "C08-R4", "_handshake|answer-is-sent", "once the answer message is built, every normal path sends it before returning", f.loc(sm[0]),
+                "the connect answer is built but not sent on some path: the peer waits for a reply that never comes")
+    else:
+        raise AnalysisError("_handshake: the single SendingMessage(msgtype, 0, seq, serializer_id, data, ...) construction vanished")
     for h in T.handlers:
         if handler_is_catch_all(h):
             continue
